@@ -544,17 +544,35 @@ def rule_q(R, ctx, rid="C20.q"):
             n += 1
             gs = [(sshow(simp_deep(l.term), 6), l.polarity) for l in v.guards(bb)]
             idx, flag = "self.%s_index" % side, "self.%s_exclusive" % side
+
+            def flag_state(l):
+                """'zero' / 'nonzero' when the literal decides the flag against 0 — switch form or comparison form"""
+                t = simp_deep(l.term)
+                if sshow(t, 6) == flag:
+                    if isinstance(l.polarity, tuple) and l.polarity[0] == "eq" and l.polarity[1] == 0:
+                        return "zero"
+                    if isinstance(l.polarity, tuple) and l.polarity[0] == "ne" and tuple(l.polarity[1]) == (0,):
+                        return "nonzero"
+                    return None
+                if isinstance(t, tuple) and t[0] == "bin" and t[1] in ("Eq", "Ne") and isinstance(l.polarity, bool):
+                    a, b = t[2], t[3]
+                    if isinstance(a, tuple) and a[0] == "const":
+                        a, b = b, a
+                    if sshow(a, 6) == flag and isinstance(b, tuple) and b[0] == "const" and b[1] == 0:
+                        return "zero" if (t[1] == "Eq") == l.polarity else "nonzero"
+                return None
+            states = {flag_state(l) for l in v.guards(bb)} - {None}
             want = {"Unbounded": [(idx, "None")],
-                    "Included": [(idx, "Some"), (flag, ("eq", 0))],
-                    "Excluded": [(idx, "Some"), (flag, "ne0")]}.get(var, [("?", "?")])
+                    "Included": [(idx, "Some"), (flag, "zero")],
+                    "Excluded": [(idx, "Some"), (flag, "nonzero")]}.get(var, [("?", "?")])
             bad = []
             for t, pol in want:
-                if pol == "ne0":
-                    ok = any(g == t and isinstance(p, tuple) and p[0] == "ne" and tuple(p[1]) == (0,) for g, p in gs)
+                if pol in ("zero", "nonzero"):
+                    ok = states == {pol}
                 else:
-                    ok = any(g == t and (p == pol or (isinstance(p, tuple) and isinstance(pol, tuple) and tuple(p) == tuple(pol))) for g, p in gs)
+                    ok = any(g == t and p == pol for g, p in gs)
                 if not ok:
-                    bad.append("%s is not known to be %s" % (t, pol if pol != "ne0" else "non-zero"))
+                    bad.append("%s is not known to be %s" % (t, pol))
             if var != "Unbounded":
                 op = sshow(simp_deep(v.terms.operand(rv["ops"][0], 10)), 8)
                 if idx not in op:
